@@ -60,6 +60,16 @@ CHECKS = {
    technique="property-based testing (proptest): generated histories; `git-ai stats --json` of every commit vs independent computations from git numstat, an own -U0 diff parse and the note",
    text="Every commit (root, ordinary, merge, rewritten) of generated histories enriched with default-ignored files, a binary file, pure deletions, several sessions per file and human-overridden AI lines is checked: diff totals equal git's numstat minus ignored paths; accepted AI lines equal the lines the commit adds that its note lists; human + accepted = added; ai_additions = accepted + mixed <= added; per-tool sums equal the totals.",
    note="The ignore set is restricted to default patterns with unambiguous glob semantics. Reference numstat is `git show --numstat -z --no-renames` with a clean configuration."),
+ "C13": dict(
+   level="exploration", design="DESIGN.md §2 C13",
+   technique="differential property-based testing (proptest): the same generated history executed through the wrapper and through git-hooks mode with pinned dates; notes and blame compared commit by commit",
+   text="One generated history is executed in two sandboxes with identical pinned dates - through the git-ai wrapper, and with plain git plus git-ai's managed repository hooks - so commit ids coincide; attestation sets of every commit and `git-ai blame --json` of every file at every branch tip must be equal.",
+   note="Canonical (set) comparison of notes. Histories whose git state diverges between the modes are counted and not judged (C06's domain). Known findings F32, F34 (wrapper-only) and F35 (hooks-only) matched by signature."),
+ "C14": dict(
+   level="exploration", design="DESIGN.md §2 C14",
+   technique="metamorphic property-based testing (proptest): a generated history H and a generated redundant-step transformation tau(H) executed in twin sandboxes; notes and blame must coincide",
+   text="A base history of human/agent edits and (partial) commits is run unchanged and with a generated transformation that inserts extra human checkpoints, verbatim repetitions of the preceding checkpoint, read-only git commands, and splits multi-line agent insertions into consecutive partial writes with their own checkpoints. Pinned dates give identical commit ids; attestation sets of every commit and `git-ai blame --json` of every file must be identical.",
+   note="Repetition is only inserted directly after the checkpoint it repeats (the property's 'no intervening change'). Intra-line pure deletions are not generated (F14 is schedule-dependent by construction). Findings F36 and F25 are matched by signature."),
 }
 
 NOT_YET = "check not built yet (work in progress; see DESIGN.md section 2 for the plan)"
